@@ -200,6 +200,22 @@ func c12(c *core.Ctx) {
 			c12Msg(k, b, true, "corpus")
 		}
 	})
+	// reduced witnesses of repaired C12 defects (D15, D16, D17): replayed first, a regression is reported at once
+	c.Family("regression-corpus", 6, func(k *core.Case) {
+		hdr := func(first uint8, chain []byte) []byte {
+			return append(ref.EncodeHeader(&abs.Msg{ISPI: 1, RSPI: 2, Major: 2, Exch: 37, MsgID: 1}, first, 28+len(chain)), chain...)
+		}
+		sk := []byte{0, 0, 0, 24, 1, 2, 3, 4, 5, 6, 7, 8, 9, 10, 11, 12, 13, 14, 15, 16, 17, 18, 19, 20}
+		w := [][]byte{
+			hdr(abs.PSK, append(append([]byte{}, sk...), 36, 0x43, 0, 6, 7, 8, 0, 0, 0, 12, 11, 0, 0, 0, 1, 2, 3, 4)), // D17: SK (next=0), skipped type-0 payload, IDr
+			hdr(abs.PSK, append(append([]byte{41}, sk[1:]...), 0, 0, 0, 8, 0, 0, 0x40, 1)),                           // SK followed by a Notify
+			hdr(abs.PDelete, []byte{0, 0, 0, 18, 3, 5, 0, 2, 1, 2, 3, 4, 5, 6, 7, 8, 9, 10}),                            // D15: two 5-octet SPIs
+			hdr(abs.PDelete, []byte{0, 0, 0, 12, 3, 2, 0, 2, 1, 2, 3, 4}),                                              // D15: two 2-octet SPIs
+			hdr(abs.PKE, []byte{0, 0, 0, 4}),                                                                           // D16: empty KE body
+			hdr(abs.PCP, []byte{39, 0, 0, 4, 0, 0, 0, 4}),                                                              // D16: empty CP then empty AUTH
+		}
+		c12Msg(k, w[k.Index], false, "regression-corpus")
+	})
 	c.Family("canonical", c.N(8000, 2000000), func(k *core.Case) {
 		m := gen.Msg(k.R, gen.Opt{AllowBig: k.Index%13 == 0, AllowEmpty: true})
 		// canonical mode: transforms in ascending type order
